@@ -23,7 +23,7 @@ import (
 type c06Case struct {
 	Template string `json:"template"`
 	Filled   bool   `json:"filled"` // every decoration point of every node carries a unique comment
-	Mode     string `json:"mode"`   // "clone" (node index) | "share" (node index A into slot index S)
+	Mode     string `json:"mode"`   // "clone" (node index) | "share" (node index A into slot index S) | "share-files" (node index: the node also placed at its own position in a second copy of the file, both restored by one Restorer)
 	Node     int    `json:"node"`
 	Slot     int    `json:"slot,omitempty"`
 	Imports  bool   `json:"imports,omitempty"` // import-bearing template, decorated with a resolver, restored with import management
@@ -100,7 +100,7 @@ func init() {
 		Level: "model_checking",
 		Rule: "every node instance of every corpus tree, as parsed and with every decoration point of every node filled: Clone compared field by field (reflection), storage disjointness of everything reachable, " +
 			"mutation of every decoration list / slice / scalar of either side leaves the other unchanged, clone substituted in its parent prints identically; every (node, type-compatible slot) pair, and every path-carrying identifier of the import-bearing templates under import management: shared placement must panic " +
-			"'duplicate node' with no output, cloned placement prints both; state = (tree variant, node[, slot]); non-trivial = node with children or decorations",
+			"'duplicate node' with no output, cloned placement prints both; every node placed additionally at its own position in a second copy of its file, both files restored by one Restorer: the second restore must panic 'duplicate node', a clone must be accepted; state = (tree variant, node[, slot]); non-trivial = node with children or decorations",
 		Assumptions: []string{"reflection sees all exported fields (dst nodes have no unexported state)"},
 		Units: func(tier string) []string {
 			var u []string
@@ -188,6 +188,14 @@ func runC06(ctx *core.Ctx, unit int) {
 			ctx.R.Transitions++
 		}
 		ctx.Sample(c06Case{Template: t.Name, Filled: filled, Mode: "clone", Node: len(nodes) / 2})
+		if !filled {
+			for i := 1; i < len(nodes); i++ {
+				cs := c06Case{Template: t.Name, Mode: "share-files", Node: i}
+				ctx.State(fmt.Sprintf("%s|share-files|%d", t.Name, i), true)
+				ctx.Eval(cs, c06Check(cs))
+				ctx.R.Transitions++
+			}
+		}
 	case 2:
 		f := c06Tree(c06Case{Template: t.Name})
 		nodes := allNodes(f)
@@ -256,6 +264,37 @@ func c06Check(cs c06Case) core.Outcome {
 	tn := typeName(n)
 	if cs.Mode == "share" {
 		return c06Share(cs, f, n, fail)
+	}
+	if cs.Mode == "share-files" {
+		// the same node in two files of one package: one Restorer restores both files; the second restore
+		// must reject the shared node, and accept a clone in its place
+		for _, clone := range []bool{false, true} {
+			g := c06Tree(cs)
+			s := allSlots(g)[cs.Node-1]
+			if clone {
+				s.Set(dst.Clone(n))
+			} else {
+				s.Set(n)
+			}
+			r := decorator.NewRestorer()
+			var p1, p2 string
+			p1 = guard(func() { _, _ = r.RestoreFile(f) })
+			if p1 != "" {
+				return fail("engine:first-file-panics", "%s", p1)
+			}
+			p2 = guard(func() { _, _ = r.RestoreFile(g) })
+			switch {
+			case !clone && p2 == "":
+				return fail("node-shared-between-files-not-rejected:"+tn, "%s occurs in two files restored by one Restorer: the second restore did not panic", tn)
+			case !clone && !strings.Contains(p2, "duplicate node"):
+				return fail("shared-node-other-panic", "%s shared between two files: expected the 'duplicate node' panic, got: %s", tn, p2)
+			case clone && p2 != "":
+				return fail("clone-in-second-file-rejected:"+tn, "a clone of %s in a second file restored by the same Restorer: %s", tn, p2)
+			}
+			f = c06Tree(cs)
+			n = allNodes(f)[cs.Node]
+		}
+		return core.Outcome{OK: true}
 	}
 	orig, perr := c06Print(cs, f)
 	if perr != nil {
